@@ -263,6 +263,35 @@ def run(tier, replay=None):
                key='E4|%s|in-band-marker' % f['name'])
     chk.expect_count('E4-in-band-marker', 'comparisons of dense-table values with a time', n_dense_cmp, 1)
 
+    # ---- T2e `still_dominated` is a for-all flag over the neighbours that appear at one time: inside the loop that
+    # walks them it is only ever cleared (assigned the literal false); assigning it the outcome of one neighbour's test
+    # lets a later neighbour that passes overwrite the failure of an earlier one
+    for unit in ('sparse', 'dense'):
+        f = fn(unit, 'process_edges')
+        flags_ = {}
+        for x in ir.walk(f['body']):
+            if x.get('k') == 'ForStmt' and x.get('init') is not None:
+                for d in (x['init'].get('decls') or []):
+                    if isinstance(d, dict) and d.get('k') == 'VarDecl' and (d.get('t') or '') == 'bool' and \
+                            d.get('init') is not None and ir.show(d['init']) == 'true' and \
+                            d['n'] in ir.show(x.get('cond')):
+                        flags_[d['n']] = x
+        if not flags_:
+            raise AnalysisBroken('C12: the for-all flag of process_edges (%s) was not found' % unit)
+        for name, loop in flags_.items():
+            ws = [x for x in ir.walk(loop.get('body')) if x.get('k') in ('BinaryOperator', 'CompoundAssignOperator')
+                  and x.get('op') in
+                  ('=', '&=', '|=') and ir.show(ir.skipcasts(x['c'][0])) == name]
+            bad = [x for x in ws if not (x.get('op') == '=' and ir.show(ir.skipcasts(x['c'][1])) == 'false') and
+                   not (x.get('op') == '&=')]
+            chk.ob('E8-forall-flag', 'process_edges (%s): `%s` is only cleared inside the loop it controls (%d writes)'
+                   % (unit, name, len(ws)), '%s:%s' % (H, loop.get('l')), bool(ws) and not bad,
+                   '' if ws and not bad else ('no write found' if not ws else 'line %s: `%s` gives the flag the outcome '
+                                              'of one test: a neighbour that passes overwrites the failure of an '
+                                              'earlier one that appeared at the same time' % (
+                                                  bad[0].get('l'), ir.show(bad[0])[:70])),
+                   key='E8|process_edges|%s|forall-flag' % unit)
+
     # ---- T2c sentinels of the two template types
     n_cmp = n_inf = 0
     for f in [g for g in F.functions if g['file'].endswith('Flag_complex_edge_collapser.h') and
